@@ -422,6 +422,67 @@ def combos(ctx):
     return out
 
 
+# --------------------------------------------------------------------------- model candidates replayed on the real code
+# Counterexamples TLC finds for the refinement invariants of RefsFiles with three actors are
+# candidates (fixed linearization points are sufficient, not necessary).  Each is turned into a
+# scripted schedule -- (actor, run until its next call matches) phases -- and executed on the
+# real code; the recorded history is judged by RefsLin like every other one.
+def _until(op=None, path_end=None, path_has=None):
+    def pred(pending):
+        if pending is None:
+            return False
+        o, p = pending
+        p = str(p)
+        return (op is None or o == op) and (path_end is None or p.endswith(path_end)) and (path_has is None or path_has in p)
+    return pred
+
+
+CANDIDATES = [
+    # RefsFiles_mc3nopack / ReadSound: reader between its loose probe and its packed probe while a CAS
+    # writes the loose file and a delete has removed the packed entry but not yet the loose file;
+    # a second read by the same reader afterwards
+    {"name": "read-read vs cas vs delete (ReadSound candidate)", "layout": "packed",
+     "actors": [["cas3"], ["rmU"], ["read", "read"]],
+     "script": [(2, _until(path_has="packed-refs")), (0, None), (1, _until(op="unlink", path_end="refs/heads/m")), (2, None), (1, None)]},
+    {"name": "read-read vs set vs delete, loose shadows packed", "layout": "both",
+     "actors": [["set3"], ["rm"], ["read", "read"]],
+     "script": [(2, _until(path_has="packed-refs")), (0, None), (1, _until(op="unlink", path_end="refs/heads/m")), (2, None), (1, None)]},
+    # RefsFiles_mc3nodel / VisIsAbs: two packers and an update (stale value written back by the second packer)
+    {"name": "cas vs pack vs pack (stale pack value, VisIsAbs candidate)", "layout": "packed",
+     "actors": [["set3"], ["pack"], ["pack"]],
+     "script": [(2, _until(op="open_excl", path_end="packed-refs.lock")), (0, None), (1, None), (2, None)]},
+]
+
+
+def run_candidate(ctx, cand):
+    r = RefRun(ctx, cand["layout"], cand["actors"])
+    phases = list(cand["script"])
+    state = {"i": 0}
+
+    def chooser(s, enabled, cur):
+        while state["i"] < len(phases):
+            a, until = phases[state["i"]]
+            if a in enabled and not (until is not None and until(s.pending.get(a))):
+                return a
+            state["i"] += 1
+        return None
+    from dulwich.refs import DiskRefsContainer
+    s = sched.Scheduler(r.world, {a: r.actor(a, names) for a, names in enumerate(r.actors)})
+    s.chooser = chooser
+    with sched.Interposer(r.world):
+        s.run()
+    r.sched = s
+    c = DiskRefsContainer(r.root)
+    try:
+        r.final = val_index(c[M])
+    except KeyError:
+        r.final = 0
+    r.leftover_locks = []
+    r.events = r.world.events
+    shutil.rmtree(r.root, ignore_errors=True)
+    return r
+
+
 def run(ctx):
     # 1. design-level model of the files backend
     from . import c08_model
@@ -461,6 +522,17 @@ def run(ctx):
                 ctx.violation(f"dulwich/refs.py:DiskRefsContainer|LockLeftBehind|ops={names} init={layout}",
                               f"lock files left after all operations returned: {r.leftover_locks}", {"meta": meta[tid], "trace": t})
             c08_model.collect_shape(ctx, r, tid)
+    for cand in CANDIDATES:
+        r = run_candidate(ctx, cand)
+        tid += 1
+        t = r.trace(tid)
+        traces.append(t)
+        names = "+".join(sorted(n for a in cand["actors"] for n in a))
+        meta[tid] = {"sig": f"dulwich/refs.py:DiskRefsContainer|NotLinearizable|ops={names} init={cand['layout']} scripted",
+                     "desc": f"scripted candidate '{cand['name']}': results={[(o['name'], o['res'], o.get('excname')) for o in sorted(r.ops, key=lambda o: o['c'])]} final={r.final}",
+                     "choices": r.sched.choices(), "layout": cand["layout"], "actors": cand["actors"]}
+        ctx.count()
+        ctx.nontrivial(("cand", cand["name"]))
     ctx.log(f"ref histories: {tid} executions, {nexc} operations ended with an exception (legitimate losers)")
     ctx.sample({"kind": "ref-history", "trace": traces[len(traces) // 3], "meta": meta[traces[len(traces) // 3]["tid"]]["desc"]})
     # commits
